@@ -168,4 +168,26 @@ var vfC07Spec = vlib.Spec[vfC07Case]{
 	Run: vfC07Run,
 }
 
-func TestVerif_C07(t *testing.T) { vlib.Both(t, vfC07Spec) }
+func TestVerif_C07(t *testing.T) {
+	t.Run("scale-model", func(t *testing.T) { vlib.Both(t, vfC07Spec) })
+	t.Run("full-scale", vfC07FullScale)
+}
+
+// One plot at the smallest production bit length (24), thorough tier only, first shard only: the same oracles as
+// the scale model (validity of every entry, completeness against the reference construction, byte equality of
+// an uncapped and a multi-window run).
+func vfC07FullScale(t *testing.T) {
+	if !vlib.Thorough() || vlib.ReplayMode() || os.Getenv("VERIF_SHARD") != "0" {
+		t.Skip("thorough tier, first shard only")
+	}
+	vol := 1 << 24
+	c := vfC07Case{Scalar: []byte{0xc7, 0x24}, BL: 24,
+		Plan:  vfRunPlan{CapsA: []int{0}, CapsB: []int{0}},
+		Plan2: vfRunPlan{CapsA: []int{vol/3 + 1, vol / 4}, CapsB: []int{vol/10 + 3}}}
+	ctx := vlib.NewCtx()
+	if f := vfC07Run(c, ctx); f != nil {
+		vlib.ReportFailure(t, "C07", "full-scale-bl24", f, c)
+		return
+	}
+	vlib.Count("C07", "full-scale-bl24", "one key at bit length 24 plotted twice with the real code (uncapped; pass A in windows of 1/3 and 1/4 of the volume, pass B in windows of 1/10 of the pairs), same oracles as the scale model; one non-trivial case", 1, []string{"bl24"}, map[string]int{"bl-24": 1}, []interface{}{c})
+}
